@@ -58,7 +58,42 @@ def gen_round(rng, n, deps, hard, profile):
     if n >= 2 and rng.random() < 0.3:
         # the tasks are handed to the graphs in another order than their dependencies suggest
         rnd['insert'] = rng.sample(range(n), n) if rng.random() < 0.6 else list(range(n - 1, -1, -1))
+    if n >= 3 and rng.random() < 0.12:
+        add_group(rng, rnd)
     return rnd
+
+
+def add_group(rng, rnd):
+    """a block of tasks handed to the scheduler as one node: a nested DepGraph (hard graph) with its own dependencies and
+    dependees.  The scheduler flattens it: the dependees wait for the tasks of the block nobody in the block depends on,
+    the tasks of the block that depend on nothing in the block wait for the dependencies of the block.  `deps` / `hard` of
+    the round are rewritten to that flattened meaning (they are what the model and the oracles use)"""
+    n = rnd['n']
+    a = rng.randrange(0, n - 1)
+    b = min(n - 1, a + rng.randrange(0, 3))
+    if b == n - 1 and a > 0 and rng.random() < 0.7:
+        a, b = a - 1, b - 1                     # leave room for dependees
+    members = list(range(a, b + 1))
+    inside = set(members)
+    gdeps = sorted(rng.sample(range(a), rng.randrange(0, min(2, a) + 1))) if a else []
+    later = list(range(b + 1, n))
+    gdependees = sorted(rng.sample(later, rng.randrange(0, min(3, len(later)) + 1))) if later else []
+    inner = {s: [d for d in rnd['deps'][s] if d in inside] for s in members}
+    terminal = [s for s in members if not inner[s]]
+    initial = [s for s in members if not any(s in inner[o] for o in members)]
+    for s in members:
+        rnd['deps'][s] = inner[s] + (gdeps if s in terminal else [])
+        rnd['hard'][s] = list(rnd['deps'][s])
+    for t in range(n):
+        if t in inside:
+            continue
+        keep = [d for d in rnd['deps'][t] if d not in inside]
+        khard = [d for d in rnd['hard'][t] if d not in inside]
+        if t in gdependees:
+            keep += initial
+            khard += initial
+        rnd['deps'][t], rnd['hard'][t] = keep, khard
+    rnd['group'] = {'members': members, 'deps': gdeps, 'dependees': gdependees}
 
 
 def regraph(rng, rnd):
@@ -66,6 +101,7 @@ def regraph(rng, rnd):
     deps, hard = gen_graph(rng, max(rnd['n'], 1) + 3, rng.choice([0.0, 0.3, 0.6, 0.9]))
     rnd['deps'] = [list(d) for d in deps[:rnd['n']]]
     rnd['hard'] = [list(d) for d in hard[:rnd['n']]]
+    rnd.pop('group', None)
 
 
 def gen(rng, tier, profile):
@@ -280,14 +316,35 @@ def run_rounds(case, sched_override=None):
         # is then not the order of the task numbers (the comparison with the model goes through that permutation)
         insert = [t for t in (rnd.get('insert') or []) if t < n]
         insert += [t for t in range(n) if t not in insert]      # (a shrunk case may have fewer tasks)
+        group = rnd.get('group')
+        if group and (max(group['members'] + group['deps'] + group['dependees']) >= n):
+            group = None                                            # (shrunk below the block: plain presentation)
+        inside = set(group['members']) if group else set()
+        sub = DepGraph() if group else None
+        placed = False
         for t in insert:
-            hard_graph.add_node(tasks[t])
+            if t in inside:
+                sub.add_node(tasks[t])
+                if not placed:
+                    hard_graph.add_node(sub)
+                    placed = True
+            else:
+                hard_graph.add_node(tasks[t])
         for t in insert:
             for d in rnd['deps'][t]:
-                if d in rnd['hard'][t]:
+                if (t in inside) != (d in inside):
+                    continue                    # stands in the graphs as an edge from / to the block (below)
+                if t in inside:
+                    sub.add_dependency(tasks[t], on=tasks[d])
+                elif d in rnd['hard'][t]:
                     hard_graph.add_dependency(tasks[t], on=tasks[d])
                 else:
                     soft_graph.add_dependency(tasks[t], on=tasks[d])
+        if group:
+            for d in group['deps']:
+                hard_graph.add_dependency(sub, on=tasks[d])
+            for t in group['dependees']:
+                hard_graph.add_dependency(tasks[t], on=sub)
         if rnd['cyclic']:
             if n >= 2:
                 # 'soft' / 'mixed': the cycle is closed by a soft dependency (only the full graph is cyclic)
